@@ -601,10 +601,10 @@ func matchFilter(filter Filter, value interface{}) (bool, interface{}, error) {
 		}
 		// We support returning a single capture group;
 		// - If there's a capture group, return it
-		// - If there's no capture group, return the whole match
+		// - If there's no capture group, return the whole value
 		// - If there's multiple capture groups, return an error
 		if len(match.Groups()) == 1 {
-			return true, string(match.Capture.Runes()), nil
+			return true, value, nil
 		} else if len(match.Groups()) == 2 {
 			return true, string(match.Groups()[1].Runes()), nil
 		} else {
